@@ -9,6 +9,21 @@ NOTE = ("Trusted: Coq 8.16.1 kernel + vm_compute; tools/gen_consts.py; the Rust 
 TECH = "machine-checked proof in Coq (Rocq) over a Gallina model + differential correspondence check against the Rust code"
 
 CLAIMED = {
+    "C15": {
+        "text": "Proved (props/C15.v): c15_first_round_no_panic - with the repaired contact list (union of routers and starting nodes) "
+                "and a fresh shared id the (address,id) registry's uniqueness assertion cannot fail, for every router set and node "
+                "set, overlapping or not; c15_pinned_refuted - the pinned list trips it as soon as one address is in both sets (the "
+                "genuine defect repaired in /repo commit 182e0d1: the panic killed the bootstrap task and then the whole node); "
+                "c15_waiter_registered_or_told / c15_all_waiters_told - every caller of bootstrapped() is told at once when "
+                "bootstrapped, else registered, and every registered waiter is notified at the transition; c15_backoff_bounds - "
+                "retry sleeps lie in [2 s, 512 s] (base/cap from the source). Decided per run (partial): no contacts => bootstrapped "
+                "immediately and no datagram; never before a contact answered; with plain nodes every waiter resolves true within 11 "
+                "min of a contact becoming responsive after outages of 3 s .. 2 h (continuous or flapping); contacts given as node "
+                "and router, duplicated, silent, error- or garbage-answering never stop API calls from completing - on simulated runs "
+                "of the real node (20 quick / 400 thorough configurations), with handler events replayed through the Coq model.",
+        "ref": "7/C15", "axioms": "none",
+        "note_extra": "PARTIAL: the attempt loop (timing of completion) is exercised, not modelled; 'node stays alive' is observed through panics/API liveness of the runs.",
+    },
     "C04": {
         "text": "Proved (props/C04.v): the timer fires entries in (deadline, id) order and removal takes exactly the fired/cancelled "
                 "entry; a search on a node with no good node closes in the step that starts it, having sent nothing; events other "
